@@ -375,6 +375,15 @@ theorem value_rename {α : Type} (I : Interp α) (v : Variant) (hv : v.collectsP
   intro s hs
   exact hB s ((hmem s).mpr (Or.inl hs))
 
+/-- The statement of the property for injective rename maps, in one piece: a map that is injective
+on the names the (sound) model mentions never changes the intensity. -/
+theorem value_rename_of_injective_names {α : Type} (I : Interp α) (v : Variant) (hv : v.sound)
+    (m : Model) (ρ : List (Name × Name)) (hρ : ρ ≠ []) (hwf : m.WF)
+    (hinj : InjOnNames ρ (collect v m)) (data data' : Sym → α)
+    (hdata : ∀ s, s ∈ collect v m → data' (sigma v m ρ s) = data s) :
+    (rename v m ρ).value I data' = m.value I data :=
+  value_rename I v hv.1 m ρ hρ hwf (sigma_injOn v m ρ hinj) data data' hdata
+
 /-! ### 6. C01 closure is preserved -/
 
 /-- If every symbol of `expression` is a parameter or a kinematic variable and never both, the same
